@@ -1,7 +1,8 @@
-(* C10 — a bug's state is exactly the documented interpretation of its operations. Property theorems only. *)
+(* C10 — a bug's state is exactly the documented interpretation of its operations. Property theorems only.
+   The central one is C10_compile_spec: Snap.compile = the specification of SnapSpec.v on every valid sequence. *)
 From Coq Require Import List Arith NArith Bool Sorting.Sorted.
 Import ListNotations.
-From GB Require Import Snap Labels SnapProps.
+From GB Require Import Snap Labels SnapProps SnapSpec SnapSpecProofs.
 Local Open Scope N_scope.
 
 (* labels: duplicate free, sorted, and exactly (L ∪ added) ∖ removed — the swap-remove loop is a set difference *)
@@ -38,3 +39,90 @@ Theorem C10_title_status i au title msg files rest : (forall o, In o rest -> not
   s_title s = fold_left title_step rest title /\ s_status s = fold_left status_step rest 1.
 Proof. exact (compile_title_status i au title msg files rest). Qed.
 Print Assumptions C10_title_status.
+
+(* ---- the compiled state IS the documented interpretation, for every valid operation sequence ----
+   [valid_ids] (SnapSpec.v): full operation ids pairwise distinct, their first 14 characters pairwise distinct, and an
+   edit that names an operation by its full id names it by its first 14 characters too.  The right-hand sides are the
+   independent specification of SnapSpec.v, the one the C10 checker compares the implementation with. *)
+Theorem C10_compile_spec ops o1 rest : ops = o1 :: rest -> is_create o1 = true -> valid_ids ops = true ->
+  let s := compile ops in let first := op_id o1 in
+  s_title s = spec_title first ops /\ s_status s = spec_status ops /\ s_labels s = spec_labels ops /\
+  s_comments s = spec_comments first ops /\ (s_actors s, s_parts s) = spec_actors_parts first ops /\
+  map titem_view (s_timeline s) = spec_timeline first ops /\ s_ops s = map op_id ops /\
+  map (fun e => kv_sort (snd e)) (s_extra s) = spec_meta ops.
+Proof. exact (compile_spec_create ops o1 rest). Qed.
+Print Assumptions C10_compile_spec.
+
+(* the first operation need not even be a create *)
+Theorem C10_compile_spec_any_first ops o1 rest : ops = o1 :: rest -> valid_ids ops = true ->
+  let s := compile ops in let first := op_id o1 in
+  s_title s = spec_title first ops /\ s_status s = spec_status ops /\ s_labels s = spec_labels ops /\
+  s_comments s = spec_comments first ops /\ (s_actors s, s_parts s) = spec_actors_parts first ops /\
+  map titem_view (s_timeline s) = spec_timeline first ops /\ s_ops s = map op_id ops /\
+  map (fun e => kv_sort (snd e)) (s_extra s) = spec_meta ops.
+Proof. exact (compile_spec ops o1 rest). Qed.
+Print Assumptions C10_compile_spec_any_first.
+
+(* component by component, each under the weakest hypothesis it needs *)
+Theorem C10_status_labels_ops_spec ops :
+  s_status (compile ops) = spec_status ops /\ s_labels (compile ops) = spec_labels ops /\ s_ops (compile ops) = map op_id ops.
+Proof. exact (compile_status_labels_ops_spec ops). Qed.
+Print Assumptions C10_status_labels_ops_spec.
+
+Theorem C10_title_spec o1 rest : s_title (compile (o1 :: rest)) = spec_title (op_id o1) (o1 :: rest).
+Proof. exact (compile_title_spec o1 rest). Qed.
+Print Assumptions C10_title_spec.
+
+(* comments and actors / participants: edits resolve to the comment whose full id they name *)
+Theorem C10_comments_spec o1 rest : valid_ids (o1 :: rest) = true ->
+  s_comments (compile (o1 :: rest)) = spec_comments (op_id o1) (o1 :: rest).
+Proof. exact (compile_comments_spec o1 rest). Qed.
+Print Assumptions C10_comments_spec.
+
+Theorem C10_actors_participants_spec o1 rest : valid_ids (o1 :: rest) = true ->
+  (s_actors (compile (o1 :: rest)), s_parts (compile (o1 :: rest))) = spec_actors_parts (op_id o1) (o1 :: rest).
+Proof. exact (compile_actors_parts_spec o1 rest). Qed.
+Print Assumptions C10_actors_participants_spec.
+
+(* timeline: only needs that no later create operation carries the first id *)
+Theorem C10_timeline_spec o1 rest : (forall o, In o rest -> not_recreate (op_id o1) o) ->
+  map titem_view (s_timeline (compile (o1 :: rest))) = spec_timeline (op_id o1) (o1 :: rest).
+Proof. exact (compile_timeline_spec o1 rest). Qed.
+Print Assumptions C10_timeline_spec.
+
+(* metadata: only needs pairwise distinct full ids *)
+Theorem C10_metadata_spec ops : NoDup (map snd (op_ids ops)) ->
+  map (fun e => kv_sort (snd e)) (s_extra (compile ops)) = spec_meta ops.
+Proof. exact (compile_meta_spec ops). Qed.
+Print Assumptions C10_metadata_spec.
+
+(* validity is decidable and what it says; it excludes a second create with the first id *)
+Theorem C10_valid_ids_meaning ops : valid_ids ops = true <->
+  NoDup (map snd (op_ids ops)) /\ NoDup (map fst (op_ids ops)) /\
+  (forall t a, In t (edit_targets ops) -> In a (op_ids ops) -> snd a = snd t -> fst a = fst t).
+Proof. exact (valid_ids_validP ops). Qed.
+Print Assumptions C10_valid_ids_meaning.
+
+Theorem C10_valid_no_recreate o1 rest : NoDup (map snd (op_ids (o1 :: rest))) -> forall o, In o rest -> not_recreate (op_id o1) o.
+Proof. exact (valid_ids_no_recreate o1 rest). Qed.
+Print Assumptions C10_valid_no_recreate.
+
+(* a valid sequence with an edit, an edit of a 14-character-colliding unknown target, a label change and metadata;
+   and what the theorem then says about it *)
+Example C10_valid_example : valid_ids ex_ops = true.
+Proof. exact ex_ops_valid. Qed.
+Example C10_valid_example_state :
+  let s := compile ex_ops in
+  s_title s = 6 /\ s_labels s = [3] /\ map c_msg (s_comments s) = [7; 9] /\ map c_edits (s_comments s) = [0; 1]%nat /\
+  s_actors s = [1; 2; 3] /\ s_parts s = [1; 2] /\
+  map titem_view (s_timeline s) = [(true, 1); (true, 2); (false, 4); (false, 7)] /\
+  map (fun e => kv_sort (snd e)) (s_extra s) = [[]; [(1, 4)]; []; []; []; []; []].
+Proof. vm_compute. repeat split. Qed.
+
+(* each hypothesis is needed (SnapSpecProofs.v): shared first 14 characters, an incoherent target, a repeated full id *)
+Example C10_head_collision_needed :
+  nodupb (map snd (op_ids ex_head_collision)) = true /\ coherent_targets ex_head_collision = true /\
+  nodupb (map fst (op_ids ex_head_collision)) = false /\
+  map c_msg (s_comments (compile ex_head_collision)) = [1; 9; 2] /\
+  map c_msg (spec_comments (1, 1) ex_head_collision) = [1; 1; 9].
+Proof. exact head_collision_needed. Qed.
